@@ -466,9 +466,112 @@ def r14_3(prog: Program, chk: Check) -> None:
     )
 
 
+# ------------------------------------------------------------------- R14.4
+def r14_4(prog: Program, chk: Check) -> None:
+    import itertools
+
+    from . import union_model as um_
+
+    chk.rule(
+        "R14.4",
+        "the union algebra as a finite model: unite_values, flatten_values, annotate_value and _is_unreachable are interpreted from their AST on model values with structural, "
+        "type-strict equality (14 values: literals 1 / True / 1.0 / 'a', two equal unhashable list literals, int, str, Any, Any[unreachable], Never, a union, an annotated value, an "
+        "annotated union) for every pair and triple: idempotent, commutative and associative up to equality of the member sets, never nests unions, Never is the identity, the "
+        "members are exactly the members of the operands (Any[unreachable] acts as a second identity, as documented), and equal alternatives are merged",
+        floor=7,
+    )
+    um = um_.UnionModel(prog)
+    atoms = {
+        "1": um.known(1), "True": um.known(True), "1.0": um.known(1.0), "'a'": um.known("a"), "[1]": um.known([1]), "[1]'": um.known([1]),
+        "int": um.typed("int"), "str": um.typed("str"), "Any": um.any("explicit"), "Any[unreachable]": um.any("unreachable"), "Never": um.never,
+    }
+    atoms["1|str"] = um.union([atoms["1"], atoms["str"]])
+    atoms["Annotated[int]"] = um.annotated(atoms["int"], [um.ext])
+    atoms["Annotated[1|'a']"] = um.annotated(um.union([atoms["1"], atoms["'a'"]]), [um.ext])
+    names = list(atoms)
+    show = um_.show
+
+    def mem(v):
+        if isinstance(v, tuple) and not (v and v[0] == "crash"):
+            return list(v)
+        return um.flatten(v)
+
+    def reachable(ms):
+        r = [m for m in ms if not (m._kind == "AnyValue" and m._attrs["source"].name.endswith("unreachable"))]
+        return r if r else ms
+
+    def same(x, y) -> bool:
+        return all(any(i == j for j in y) for i in x) and all(any(i == j for j in x) for i in y)
+
+    classes: Dict[str, List[dict]] = {k: [] for k in ("idempotent", "Never-is-the-identity", "commutative", "never-nests", "members-are-the-operands-members", "equal-alternatives-merged", "equal-alternatives-merged::unhashable-literals", "associative", "no-crash")}
+    counts: Dict[str, int] = {k: 0 for k in classes}
+    total = 0
+
+    def unite(*vs):
+        nonlocal total
+        total += 1
+        r = um.unite(*vs)
+        counts["no-crash"] += 1
+        if isinstance(r, tuple) and r and r[0] == "crash":
+            classes["no-crash"].append({"operands": [show(v) for v in vs], "error": r[1]})
+            return None
+        return r
+
+    for a in names:
+        A = atoms[a]
+        r = unite(A, A)
+        counts["idempotent"] += 1
+        if r is not None and not same(reachable(mem(r)), reachable(mem(A))):
+            classes["idempotent"].append({"a": a, "unite(a, a)": show(r)})
+        r = unite(A, um.never)
+        counts["Never-is-the-identity"] += 1
+        if r is not None and not same(reachable(mem(r)), reachable(mem(A))):
+            classes["Never-is-the-identity"].append({"a": a, "unite(a, Never)": show(r)})
+    for a, b in itertools.product(names, repeat=2):
+        A, B = atoms[a], atoms[b]
+        ab, ba = unite(A, B), unite(B, A)
+        if ab is None or ba is None:
+            continue
+        counts["commutative"] += 1
+        if not same(mem(ab), mem(ba)):
+            classes["commutative"].append({"a": a, "b": b, "unite(a, b)": show(ab), "unite(b, a)": show(ba)})
+        ms = mem(ab)
+        counts["never-nests"] += 1
+        if any(m._kind == "MultiValuedValue" or (m._kind == "AnnotatedValue" and m._attrs["value"]._kind == "MultiValuedValue") for m in ms):
+            classes["never-nests"].append({"a": a, "b": b, "unite(a, b)": show(ab)})
+        counts["members-are-the-operands-members"] += 1
+        if not same(reachable(ms), reachable(mem(A) + mem(B))):
+            classes["members-are-the-operands-members"].append({"a": a, "b": b, "unite(a, b)": show(ab)})
+        dup = [(x, y) for i, x in enumerate(ms) for y in ms[i + 1 :] if x == y]
+        unh = [d for d in dup if d[0]._unhashable()]
+        counts["equal-alternatives-merged"] += 1
+        counts["equal-alternatives-merged::unhashable-literals"] += 1
+        if [d for d in dup if not d[0]._unhashable()]:
+            classes["equal-alternatives-merged"].append({"a": a, "b": b, "unite(a, b)": show(ab)})
+        if unh:
+            classes["equal-alternatives-merged::unhashable-literals"].append({"a": a, "b": b, "unite(a, b)": show(ab)})
+    for a, b, c in itertools.product(names, repeat=3):
+        A, B, C = atoms[a], atoms[b], atoms[c]
+        ab, bc = unite(A, B), unite(B, C)
+        if ab is None or bc is None:
+            continue
+        l, r = unite(ab, C), unite(A, bc)
+        if l is None or r is None:
+            continue
+        counts["associative"] += 1
+        if not same(mem(l), mem(r)):
+            classes["associative"].append({"a": a, "b": b, "c": c, "unite(unite(a, b), c)": show(l), "unite(a, unite(b, c))": show(r)})
+    chk.model_evaluations += total
+    chk.analysed["union_model"] = {"unite_calls": total, "values": names}
+    site = prog.site("value", prog.func("value", "unite_values"))
+    for k, bad in classes.items():
+        chk.ob("R14.4", f"value::union-model::{k}", not bad, site, f"{counts[k]} cases, {len(bad)} failing" + (f"; first: {bad[0]}" if bad else ""), witness=bad[:4])
+
+
 def run(prog: Program, chk: Check) -> None:
     guard(chk, r14_1, prog, chk)
     guard(chk, r14_1b, prog, chk)
     guard(chk, r14_2, prog, chk)
     guard(chk, r14_2b, prog, chk)
     guard(chk, r14_3, prog, chk)
+    guard(chk, r14_4, prog, chk)
